@@ -50,10 +50,13 @@ type sbState struct {
 	env       map[types.Object]Aff
 	slices    map[types.Object]*BuiltSlice
 	delivered bool
+	// pin: the branch taken has narrowed the pivot to one value inside the region
+	// (`if size < 0 {…}` not taken where size <= 0 is known: size == 0)
+	pin *int64
 }
 
 func (s *sbState) clone() *sbState {
-	c := &sbState{env: map[types.Object]Aff{}, slices: map[types.Object]*BuiltSlice{}, delivered: s.delivered}
+	c := &sbState{env: map[types.Object]Aff{}, slices: map[types.Object]*BuiltSlice{}, delivered: s.delivered, pin: s.pin}
 	for k, v := range s.env {
 		c.env[k] = v
 	}
@@ -92,6 +95,100 @@ func (sb *SliceBuild) aenv(st *sbState) *AffEnv {
 }
 
 func (sb *SliceBuild) eval(st *sbState, e ast.Expr) (Aff, bool) {
+	a, ok := sb.eval0(st, e)
+	if ok && st.pin != nil && !a.IsConst() {
+		// a = k·pivot + c with the pivot pinned
+		for _, k := range []int64{1, -1} {
+			if rest := a.Add(sb.Pivot, -k); rest.IsConst() {
+				return AffConst(rest.C + k*(*st.pin)), true
+			}
+		}
+	}
+	return a, ok
+}
+
+// pinned: the single value of the pivot that the given outcome of c leaves inside the region,
+// if it leaves exactly one.
+func (sb *SliceBuild) pinned(st *sbState, c ast.Expr, outcome bool) (int64, bool) {
+	x, ok := Unparen(c).(*ast.BinaryExpr)
+	if !ok {
+		return 0, false
+	}
+	op := x.Op
+	if !outcome {
+		neg := map[token.Token]token.Token{token.LSS: token.GEQ, token.GEQ: token.LSS, token.GTR: token.LEQ, token.LEQ: token.GTR, token.EQL: token.NEQ, token.NEQ: token.EQL}
+		n, ok := neg[op]
+		if !ok {
+			return 0, false
+		}
+		op = n
+	}
+	l, ok1 := sb.eval(st, x.X)
+	r, ok2 := sb.eval(st, x.Y)
+	if !ok1 || !ok2 {
+		return 0, false
+	}
+	d := l.Add(r, -1)
+	sign := int64(1)
+	rest := d.Add(sb.Pivot, -1)
+	if !rest.IsConst() {
+		rest = d.Add(sb.Pivot, 1)
+		sign = -1
+		if !rest.IsConst() {
+			return 0, false
+		}
+	}
+	c0 := rest.C
+	// sign·P + c0 OP 0  as a bound on P
+	var lo, hi int64
+	hasLo, hasHi := false, false
+	switch op {
+	case token.GEQ:
+		if sign > 0 {
+			lo, hasLo = -c0, true
+		} else {
+			hi, hasHi = c0, true
+		}
+	case token.GTR:
+		if sign > 0 {
+			lo, hasLo = -c0+1, true
+		} else {
+			hi, hasHi = c0-1, true
+		}
+	case token.LEQ:
+		if sign > 0 {
+			hi, hasHi = -c0, true
+		} else {
+			lo, hasLo = c0, true
+		}
+	case token.LSS:
+		if sign > 0 {
+			hi, hasHi = -c0-1, true
+		} else {
+			lo, hasLo = c0+1, true
+		}
+	case token.EQL:
+		v := -c0
+		if sign < 0 {
+			v = c0
+		}
+		if (sb.Region < 0 && v <= 0) || (sb.Region > 0 && v >= 1) {
+			return v, true
+		}
+		return 0, false
+	default:
+		return 0, false
+	}
+	if sb.Region < 0 && hasLo && lo == 0 {
+		return 0, true
+	}
+	if sb.Region > 0 && hasHi && hi == 1 {
+		return 1, true
+	}
+	return 0, false
+}
+
+func (sb *SliceBuild) eval0(st *sbState, e ast.Expr) (Aff, bool) {
 	e = Unparen(e)
 	if c, ok := e.(*ast.CallExpr); ok && len(c.Args) == 1 {
 		if id, ok := c.Fun.(*ast.Ident); ok && id.Name == "len" {
@@ -432,8 +529,17 @@ func (sb *SliceBuild) ifBody(x *ast.IfStmt, st *sbState, k func(*sbState)) {
 	case -1:
 		els(st)
 	default:
-		sb.list(x.Body.List, st.clone(), k)
-		els(st.clone())
+		th, el := st.clone(), st.clone()
+		if st.pin == nil {
+			if v, ok := sb.pinned(st, x.Cond, true); ok {
+				th.pin = &v
+			}
+			if v, ok := sb.pinned(st, x.Cond, false); ok {
+				el.pin = &v
+			}
+		}
+		sb.list(x.Body.List, th, k)
+		els(el)
 	}
 }
 
@@ -509,7 +615,7 @@ func (sb *SliceBuild) assign(st *sbState, x *ast.AssignStmt) {
 			if obj == nil {
 				obj = sb.Info.Uses[lx]
 			}
-			tmp := &sbState{env: snap.env, slices: snap.slices}
+			tmp := &sbState{env: snap.env, slices: snap.slices, pin: snap.pin}
 			// evaluate against the snapshot, store into st
 			delete(st.env, obj)
 			delete(st.slices, obj)
